@@ -288,12 +288,37 @@ uint64_t allocationCount()
 
 } // namespace simalloc
 
+static uint64_t gFailCountdown = 0;
+static bool gFailFired = false;
+
+namespace simalloc {
+void failAllocation(uint64_t nth)
+{
+    gFailCountdown = nth;
+    gFailFired = false;
+}
+bool allocationFailureFired()
+{
+    return gFailFired;
+}
+} // namespace simalloc
+
+static inline void maybeFail()
+{
+    if (gFailCountdown != 0 && --gFailCountdown == 0) {
+        gFailFired = true;
+        throw std::bad_alloc();
+    }
+}
+
 void *operator new(size_t n)
 {
+    maybeFail();
     return allocate(n);
 }
 void *operator new[](size_t n)
 {
+    maybeFail();
     return allocate(n);
 }
 void *operator new(size_t n, const std::nothrow_t &) noexcept
